@@ -517,6 +517,12 @@ def run(ctx):
     th.start()
 
     impl = Impl()
+    # which index does the reader build for a strided section?  (model parameter fx of Model2/Model3.WSec)
+    from psyclone.psyir.nodes import Routine as _R
+    _t = psy2t.routine(impl.read("subroutine s()\n  integer, dimension(10) :: a\n  integer, dimension(5) :: b\n"
+                                 "  where (b(:) >= 0) b(:) = a(2:10:2)\nend subroutine s\n").walk(_R)[0])
+    coqenc.FX = "Mul" in repr(_t) and not os.environ.get("C01_FORCE_PREFIX_STRIDE")
+    ctx.notes["strided_index_variant"] = "start + (widx-1)*stride" if coqenc.FX else "start + widx - 1 (stride dropped)"
     # ---- route (b), PSyclone part first; the compiler runs in the background during route (a)
     items, meta = [], {}
     n_b = ctx.pick(3, 60)
@@ -629,10 +635,10 @@ def run(ctx):
     def do_corr():
         try:
             t0 = time.time()
-            okm, outm = ctx.coq_make(["C01/Corr.vo"], timeout=1500)
+            okm, outm = ctx.coq_make(["C01/Corr3.vo"], timeout=1500)
             if not okm:
-                raise RuntimeError("cannot build C01/Corr.vo:\n" + outm[-2000:])
-            corr["bad"] = ctx.coq_eval_failing("From PV Require Import C01.Model C01.Corr.\nFrom PV Require Import Fort.Syntax.\n"
+                raise RuntimeError("cannot build C01/Corr3.vo:\n" + outm[-2000:])
+            corr["bad"] = ctx.coq_eval_failing("From PV Require Import C01.Model3 C01.Corr3.\nFrom PV Require Import Fort.Syntax.\n"
                                                "Require Import Coq.ZArith.ZArith.\nOpen Scope Z_scope.",
                                                "corr_case", "corr_check", coq_cases, shard=ctx.pick(400, 150), timeout=1500)
             ctx.log("correspondence evaluated in %.0fs" % (time.time() - t0))
@@ -729,11 +735,13 @@ def run(ctx):
     bad = corr["bad"]
     ctx.cov["disagreements_checked"] = len(bad)
     ctx.notes["correspondence_cases"] = len(coq_cases)
+    ctx.notes["correspondence_cases_with_section_operands"] = sum(1 for x in coq_cases if "WSec" in x)
+    ctx.notes["correspondence_cases_with_strided_operands"] = sum(1 for x in coq_cases if re.search(r"WSec \w+ \d+%nat \(\d+\) \(\d+\) \((?!1\))", x))
     ctx.log("correspondence: %d cases, %d differ" % (len(coq_cases), len(bad)))
     for c in cases[:2] + cases[-2:]:
         ctx.sample({"source": c.text[-700:], "re-written": (c.written or "")[-700:], "valid_stores": c.valid_stores,
                     "failures": c.failures[:1]})
-    concrete = bool(ctx.violations) or bool(ctx.known_printed)
+    concrete = bool(ctx.violations)       # (a replayed known finding is not a reason to keep quiet about a mismatch)
     if bad and not concrete:
         c = cases[coq_idx[bad[0]]]
         ctx.violation({"property": "C01", "broken": "correspondence: the tree built by the reader is not `lower` "
